@@ -1,5 +1,8 @@
 ---- MODULE MC_PerThread ----
 EXTENDS PerThread, Json
 \* Generator: one witness behaviour per distinct terminal state (hist is hidden from the fingerprint by VIEW).
-GenBeh == Done => PrintT(<<"BEH", ToJson([progs |-> [i \in 1..NT |-> st.progs[i - 1]], script |-> hist])>>)
+Beh == ToJson([progs |-> [i \in 1..NT |-> st.progs[i - 1]], script |-> hist])
+GenBeh == Done => PrintT(<<"BEH", Beh>>)
+CexBeh == (~JudgeOk \/ ~EndOk \/ ~NoStuck) => PrintT(<<"CEX", Beh>>)
+CexBehSafe == (~JudgeOk \/ ~EndOk) => PrintT(<<"CEX", Beh>>)
 ====
